@@ -736,14 +736,19 @@ where
         // Store masks from all results
         let mut masks = Vec::<Option<ExtendedMask>>::with_capacity(proofs.len());
 
-        // Get chunks of both the statements and proofs
-        let mut chunks = statements
-            .chunks(MAX_RANGE_PROOF_BATCH_SIZE)
-            .zip(proofs.chunks(MAX_RANGE_PROOF_BATCH_SIZE));
+        // Members that end up in different chunks must still agree on bit length, extension degree and generators
+        RangeProof::verify_statements_and_generators_consistency(statements, proofs)?;
 
-        // If the batch fails, propagate the error; otherwise, store the masks and keep going
-        if let Some((batch_statements, batch_proofs)) = chunks.next() {
-            let mut result = RangeProof::verify(transcripts, batch_statements, batch_proofs, action)?;
+        // Get chunks of the transcripts, statements and proofs
+        let chunks = izip!(
+            transcripts.chunks_mut(MAX_RANGE_PROOF_BATCH_SIZE),
+            statements.chunks(MAX_RANGE_PROOF_BATCH_SIZE),
+            proofs.chunks(MAX_RANGE_PROOF_BATCH_SIZE)
+        );
+
+        // If any chunk fails, propagate the error; otherwise, store the masks and keep going
+        for (batch_transcripts, batch_statements, batch_proofs) in chunks {
+            let mut result = RangeProof::verify(batch_transcripts, batch_statements, batch_proofs, action)?;
 
             masks.append(&mut result);
         }
